@@ -72,7 +72,8 @@ fn main() {
                 _ => {
                     // file-to-file compilation through the library entry point
                     let mut syms = std::collections::HashMap::new();
-                    chialisp::classic::clvm_tools::clvmc::compile_clvm(&args[3], &args[4], &[], &mut syms).map(|_| ())
+                    let paths: Vec<String> = args.get(6).map(|s| s.split(';').filter(|x| !x.is_empty()).map(|x| x.to_string()).collect()).unwrap_or_default();
+                    chialisp::classic::clvm_tools::clvmc::compile_clvm(&args[3], &args[4], &paths, &mut syms).map(|_| ())
                 }
             };
             match r {
